@@ -185,7 +185,7 @@ def run_product(st, opts):
         gshape, gkind = M, "tt"
         want = ("tt", M, [])
     elif op == "amen_mm":
-        K = [n + 1 if n < 3 else n - 1 for n in N]
+        K = [n + 1 if n < 3 else n - 1 for n in N] if cfg["data"] != "col1" else [1] * len(N)
         A = rand_tt(tt, list(zip(M, N)), cfg["r"], gen, dt, decay)
         B = rand_tt(tt, list(zip(N, K)), cfg["r"], gen, dt, decay)
         ref = (dense_op(A) @ dense_op(B)).reshape(M + K)
